@@ -194,7 +194,7 @@ func RunCheck(spec *PropSpec, tier string, seed int64, nworkers int) int {
 				violations++
 				p := writeReplay(spec.ID, job, w, "engine-only (modelled environment)")
 				fmt.Printf("VIOLATION property=%s replay=%s\n", spec.ID, p)
-				fmt.Printf("  harness=%s n=%d engine=%q (engine-only: the file system / crash point is a model) input=%v\n", job.Fn, job.N, w.Outcome, w.Pretty)
+				fmt.Printf("  harness=%s n=%d engine=%q (engine-only: this clause has no native counterpart (model file system, kill point or write-set monitor)) input=%v\n", job.Fn, job.N, w.Outcome, w.Pretty)
 				exit = 1
 			}
 			for _, id := range kids {
